@@ -15,7 +15,13 @@ static std::string run_case(const std::vector<std::string>& w)
     using namespace vh;
     if (w.size() == 3 && w[0] == "split")
     {
-        try { return "L " + wire_strs(nitro::lang::split(unhex(w[2]), unhex(w[1]))); }
+        try
+        {
+            auto r = nitro::lang::split(unhex(w[2]), unhex(w[1]));
+            const std::string hay = unhex(w[2]), needle = unhex(w[1]);
+            if (nitro::lang::split(hay, needle) != r) return "L-VALUE-CATEGORIES-DIFFER";
+            return "L " + wire_strs(r);
+        }
         catch (const nitro::except::exception&) { return "RAISE"; }
     }
     if (w.size() == 4 && w[0] == "replace")
@@ -42,6 +48,15 @@ static std::string run_case(const std::vector<std::string>& w)
         auto a = nitro::lang::join(l, unhex(w[1]));
         auto b = nitro::lang::join(l.begin(), l.end(), unhex(w[1]));
         if (a != b) return "S-OVERLOADS-DIFFER " + hex(a) + " " + hex(b);
+        // the list in every value category: const lvalue, temporary, std::move(named); the infix as lvalue and temporary
+        const std::vector<std::string> cl(l);
+        std::vector<std::string> victim(l);
+        const std::string infix = unhex(w[1]);
+        auto c = nitro::lang::join(cl, infix);
+        auto d = nitro::lang::join(std::vector<std::string>(l), infix);
+        auto e = nitro::lang::join(std::move(victim), std::string(infix));
+        if (c != a || d != a || e != a) return "S-VALUE-CATEGORIES-DIFFER " + hex(a) + " " + hex(c) + " " + hex(d) + " " + hex(e);
+        if (cl != l) return "S-ARGUMENT-MODIFIED";
         return "S " + hex(a);
     }
     if (w.size() == 3 && w[0] == "joinw")
@@ -83,6 +98,8 @@ static std::string run_case(const std::vector<std::string>& w)
         auto a = nitro::lang::join(l);
         auto b = nitro::lang::join(l.begin(), l.end());
         if (a != b) return "S-OVERLOADS-DIFFER " + hex(a) + " " + hex(b);
+        auto d = nitro::lang::join(std::vector<std::string>(l));
+        if (d != a) return "S-VALUE-CATEGORIES-DIFFER " + hex(a) + " " + hex(d);
         return "S " + hex(a);
     }
     if (w.size() == 3 && w[0] == "joini")
